@@ -45,7 +45,7 @@ DEFAULTS = {
     'uint': [None, None, 0, 3],
     'float': [None, None, 0.0, 1.5],
     'bool': [None, None, False, True],
-    'obj': [None, None, 'dflt', [1, 2], 0],     # lists in the case stand for tuples (immutable default)
+    'obj': [None, None, 'dflt', [1, 2], 0, '$callable:dict', '$callable:fn'],     # lists in the case stand for tuples (immutable default); $callable: the default is a callable object (a class, a function) - stored as it is, never called
     'npfloat': [None],
     'fsub': [None],
 }
@@ -64,15 +64,25 @@ def mk_value(rng, t):
     return rng.choice(OBJ_VALUES)
 
 
+def _a_default_function():
+    raise AssertionError('a default value was called')
+
+
 def as_default(t, d):
     if t == 'obj' and isinstance(d, list):
         return tuple(d)
+    if d == '$callable:dict':
+        return dict
+    if d == '$callable:fn':
+        return _a_default_function
     return d
 
 
 def same(t, got, exp):
     """read-back equality 'with the declared type'."""
     if exp is NOTSET or got is NOTSET:
+        return got is exp
+    if callable(exp):
         return got is exp
     if t in ('int', 'uint'):
         return type(got) is int and got == exp
